@@ -17,10 +17,13 @@ import (
 	"os/exec"
 	"path/filepath"
 	"strings"
+	"sync"
 	"time"
 
 	"github.com/idena-network/idena-go/blockchain/types"
 	"github.com/idena-network/idena-go/config"
+	"github.com/idena-network/idena-go/core/ceremony"
+	"github.com/idena-network/idena-go/core/state"
 
 	"verifharness/internal/chainfx"
 	"verifharness/internal/hx"
@@ -35,6 +38,7 @@ type c01params struct {
 	BlocksFile   string `json:"blocks_file"`
 	TraceFile    string `json:"trace_file"`
 	RestartEvery int    `json:"restart_every"`
+	Fork         int    `json:"fork"` // follower: 0 = skip side blocks; 1 = insert every side block, then reset to its parent; 2 = and restart right after the reset
 	ReorgEvery   int    `json:"reorg_every"`
 	SkewSec      int    `json:"skew_sec"`
 	Label        string `json:"label"`
@@ -49,10 +53,15 @@ func c01world(p c01params) (*chainfx.World, chainfx.HistoryOpts) {
 		// nobody takes part: the validation fails, all 409 identities stay, and the next validation time is normalised by weekday
 		return w, chainfx.HistoryOpts{TxPerBlock: 3, Participate: -1}
 	}
-	w := chainfx.NewWorld(p.Seed, 8, 0, time.Date(2030, 1, 1, 0, 0, 0, 0, time.UTC))
-	w.Opts.Validation = chainfx.ShortValidation()
+	// genesis identities that can survive their first ceremonies (a genesis Verified has no flip history and is killed by the
+	// first qualified one): Humans (authors with extra flips), Suspended / Zombie (come back as Verified), candidates, newbies
+	w := chainfx.NewWorldStates(p.Seed, 10, 0, time.Date(2030, 1, 1, 0, 0, 0, 0, time.UTC), state.Human,
+		[]state.IdentityState{state.Human, state.Human, state.Suspended, state.Zombie, state.Newbie, state.Candidate, state.Human, state.Suspended, state.Candidate, state.Newbie})
+	// epochs of 14 minutes (42 blocks): three validation ceremonies within one history, the later ones with flips
+	w.Opts.Validation = &config.ValidationConfig{ValidationInterval: 14 * time.Minute, FlipLotteryDuration: 2 * time.Minute,
+		ShortSessionDuration: time.Minute, LongSessionDuration: 2 * time.Minute}
 	w.Opts.FirstCeremony = w.T0.Add(8 * time.Minute).Unix()
-	return w, chainfx.HistoryOpts{TxPerBlock: 4, WithFlips: true}
+	return w, chainfx.HistoryOpts{TxPerBlock: 4, WithFlips: true, MoreFlips: true, Always: map[int]bool{0: true}}
 }
 
 func traceLine(n *chainfx.Node) string {
@@ -84,6 +93,22 @@ func txSeq(b *types.Block) string {
 	return sb.String()
 }
 
+// the REAL ceremony object on every node of this check (see shims/core__ceremony--c01.go.tmpl)
+func c01realCeremony() {
+	chainfx.RealAttach = func(n *chainfx.Node) *ceremony.ValidationCeremony {
+		return ceremony.FxAttachReal(n.Chain, n.App, n.DB, n.Cfg, n.Sec, n.Bus, n.Pool)
+	}
+	chainfx.RealAfterAdd = func(n *chainfx.Node, b *types.Block) {
+		if b.Header.Flags().HasFlag(types.FlipLotteryStarted) {
+			n.VC.FxWaitLottery()
+		}
+	}
+}
+
+func isCeremonyTx(t uint16) bool {
+	return t == types.SubmitAnswersHashTx || t == types.SubmitShortAnswersTx || t == types.SubmitLongAnswersTx || t == types.EvidenceTx
+}
+
 // child: generator
 func c01gen(c *hx.Ctx, p c01params) error {
 	w, o := c01world(p)
@@ -109,7 +134,7 @@ func c01gen(c *hx.Ctx, p c01params) error {
 		}
 		chainfx.Advance(20 * time.Second)
 		if !n.IsEligibleProposer() {
-			c.Hit("history-ended:proposer-not-eligible")
+			c.Hit(fmt.Sprintf("history-ended:proposer-not-eligible:online=%d,god-validated=%v,epoch=%d", n.App.ValidatorsCache.OnlineSize(), n.App.ValidatorsCache.IsValidated(n.Addr), n.App.State.Epoch()))
 			break
 		}
 		p1, err := n.Propose()
@@ -137,6 +162,43 @@ func c01gen(c *hx.Ctx, p c01params) error {
 			c.Fail("C01:same-proposer-same-head-different-block", fmt.Sprintf("height %d: two ProposeBlock calls on the same head and mempool differ:\n%s\n%s", p1.Block.Height(), d1, d2), p)
 			return nil
 		}
+		// a side block: the proposal as it is becomes an abandoned fork block; the canonical block of this height is proposed
+		// again after one participant's pending ceremony transactions were dropped (they are never mined on the canonical
+		// chain).  Followers in the fork environments insert the side block first and are then reset to its parent.
+		if !p.TzScenario && p1.Block.Body != nil && r.Intn(3) == 0 {
+			var victims []int
+			for _, tx := range p1.Block.Body.Transactions {
+				if s, _ := types.Sender(tx); isCeremonyTx(tx.Type) {
+					if i := w.Index(s); i > 0 {
+						victims = append(victims, i)
+					}
+				}
+			}
+			if len(victims) > 0 {
+				v := victims[r.Intn(len(victims))]
+				for _, tx := range n.Pool.GetPendingByAddress(w.Addrs[v]) {
+					n.Pool.Remove(tx)
+				}
+				h.S.Resync(n, v)
+				p3, err := n.Propose()
+				if err != nil {
+					c.Fail("C01:propose-panic", err.Error(), p)
+					return nil
+				}
+				clean := true
+				for _, tx := range p3.Block.Body.Transactions {
+					if s, _ := types.Sender(tx); s == w.Addrs[v] {
+						clean = false
+					}
+				}
+				if clean {
+					raw, _ := p1.Block.ToBytes()
+					fmt.Fprintln(bf, "S "+hex.EncodeToString(raw))
+					c.Hit(fmt.Sprintf("side-block:period-%d", n.App.State.ValidationPeriod()))
+					p1 = p3
+				}
+			}
+		}
 		if err := n.Add(p1.Block); err != nil {
 			c.Fail("C01:own-block-rejected", fmt.Sprintf("height %d: %v", p1.Block.Height(), err), p)
 			return nil
@@ -145,6 +207,14 @@ func c01gen(c *hx.Ctx, p c01params) error {
 		fmt.Fprintln(bf, hex.EncodeToString(raw))
 		fmt.Fprintln(tf, traceLine(n))
 		c.Hit(fmt.Sprintf("gen-block-flags:%d", p1.Block.Header.Flags()))
+		if p1.Block.Header.Flags().HasFlag(types.ValidationFinished) && os.Getenv("C01_DEBUG") != "" {
+			var st []string
+			for i, a := range w.Addrs {
+				id := n.App.State.GetIdentity(a)
+				st = append(st, fmt.Sprintf("%d:%d/f%d/r%d", i, id.State, len(id.Flips), id.RequiredFlips))
+			}
+			fmt.Fprintln(os.Stderr, "epoch", n.App.State.Epoch(), strings.Join(st, " "))
+		}
 		if p.TzScenario && p1.Block.Header.Flags().HasFlag(types.ValidationFinished) && b+3 < p.Blocks {
 			p.Blocks = b + 3
 		}
@@ -174,8 +244,29 @@ func c01follow(c *hx.Ctx, p c01params) error {
 	sc.Buffer(make([]byte, 1<<20), 64<<20)
 	var blocks []*types.Block
 	i := 0
+	restart := func(before uint64) bool {
+		if n.VC != nil && n.Real {
+			n.VC.FxStop()
+		}
+		nn, err := chainfx.Start(n.DB, n.Key, w.Cfg(), true)
+		if err != nil {
+			c.Fail("C01:restart-failed:"+p.Label, fmt.Sprintf("before height %d: %v", before, err), p)
+			return false
+		}
+		n = nn
+		c.Hit("restarts")
+		return true
+	}
 	for sc.Scan() {
-		raw, err := hex.DecodeString(sc.Text())
+		line := sc.Text()
+		side := strings.HasPrefix(line, "S ")
+		if side {
+			line = line[2:]
+			if p.Fork == 0 {
+				continue
+			}
+		}
+		raw, err := hex.DecodeString(line)
 		if err != nil {
 			return err
 		}
@@ -183,19 +274,33 @@ func c01follow(c *hx.Ctx, p c01params) error {
 		if err := blk.FromBytes(raw); err != nil {
 			return err
 		}
+		if side {
+			// the abandoned fork block: accepted (it is a valid block on this head), then the node is switched back
+			chainfx.SetTime(time.Unix(blk.Header.Time()+int64(p.SkewSec), 0))
+			if err := n.Add(blk); err != nil {
+				c.Fail("C01:replica-rejects-block:"+p.Label, fmt.Sprintf("side block at height %d: %v", blk.Height(), err), p)
+				return nil
+			}
+			if _, err := n.Chain.ResetTo(blk.Height() - 1); err != nil {
+				c.Fail("C01:reset-failed:"+p.Label, err.Error(), p)
+				return nil
+			}
+			c.Hit("fork-switches")
+			if p.Fork == 2 && !restart(blk.Height()) {
+				return nil
+			}
+			continue
+		}
 		blocks = append(blocks, blk)
 		i++
 		chainfx.SetTime(time.Unix(blk.Header.Time()+int64(p.SkewSec), 0))
 		if p.RestartEvery > 0 && i%p.RestartEvery == 0 {
-			nn, err := chainfx.Start(n.DB, n.Key, w.Cfg(), true)
-			if err != nil {
-				c.Fail("C01:restart-failed:"+p.Label, fmt.Sprintf("before height %d: %v", blk.Height(), err), p)
+			if !restart(blk.Height()) {
 				return nil
 			}
-			n = nn
-			c.Hit("restarts")
 		}
-		if p.ReorgEvery > 0 && i%p.ReorgEvery == 0 && len(blocks) > 4 {
+		justFinished := len(blocks) > 4 && blocks[len(blocks)-2].Header.Flags().HasFlag(types.ValidationFinished)
+		if p.ReorgEvery > 0 && (i%p.ReorgEvery == 0 || justFinished) && len(blocks) > 4 {
 			k := 1 + i%3
 			if _, err := n.Chain.ResetTo(n.Chain.Head.Height() - uint64(k)); err != nil {
 				c.Fail("C01:reset-failed:"+p.Label, err.Error(), p)
@@ -203,8 +308,16 @@ func c01follow(c *hx.Ctx, p c01params) error {
 			}
 			for _, rb := range blocks[len(blocks)-1-k : len(blocks)-1] {
 				cb, _ := chainfx.CloneBlock(rb)
+				fin := rb.Header.Flags().HasFlag(types.ValidationFinished)
+				if fin {
+					c.Hit("reorgs-across-validation-finished")
+				}
 				if err := n.Add(cb); err != nil {
-					c.Fail("C01:replica-rejects-block:"+p.Label, fmt.Sprintf("re-adding height %d after reset: %v", rb.Height(), err), p)
+					sig := "C01:replica-rejects-block:" + p.Label
+					if fin {
+						sig = "C01:validation-finishing-block-rejected-after-rollback"
+					}
+					c.Fail(sig, fmt.Sprintf("re-adding height %d (flags %d) after reset: %v", rb.Height(), rb.Header.Flags(), err), p)
 					return nil
 				}
 			}
@@ -225,6 +338,7 @@ type c01env struct {
 	restartEvery int
 	reorgEvery   int
 	skew         int
+	fork         int
 }
 
 func c01parent(c *hx.Ctx) error {
@@ -234,14 +348,16 @@ func c01parent(c *hx.Ctx) error {
 	}
 	c.Rep.Rule = "per history: a generator process builds the chain with the real code (every block proposed twice on the same head and compared) and follower processes insert the same blocks in different environments: host time zone (UTC, Asia/Tokyo, Pacific/Auckland, America/Los_Angeles), wall clock skew +90 s, restart from the database every 7 blocks, reset-and-return every 9 blocks, plain repetitions (map iteration order); per height (root, identity root, next validation time, epoch, fee rate, period) compared with the generator; distinct = (history, environment); the tz scenario has 408 identities (epoch length normalisation by weekday active)"
 	envs := []c01env{
-		{"utc", "UTC", 0, 0, 0}, {"tokyo", "Asia/Tokyo", 0, 0, 0}, {"auckland", "Pacific/Auckland", 0, 0, 0}, {"los-angeles", "America/Los_Angeles", 0, 0, 0},
-		{"skew+90s", "UTC", 0, 0, 90}, {"restart7", "UTC", 7, 0, 0}, {"reorg9", "UTC", 0, 9, 0}, {"restart5+reorg11-tokyo", "Asia/Tokyo", 5, 11, 0},
+		{"utc", "UTC", 0, 0, 0, 0}, {"tokyo", "Asia/Tokyo", 0, 0, 0, 0}, {"auckland", "Pacific/Auckland", 0, 0, 0, 0}, {"los-angeles", "America/Los_Angeles", 0, 0, 0, 0},
+		{"skew+90s", "UTC", 0, 0, 90, 0}, {"restart7", "UTC", 7, 0, 0, 0}, {"reorg9", "UTC", 0, 9, 0, 0}, {"restart5+reorg11-tokyo", "Asia/Tokyo", 5, 11, 0, 0},
+		{"fork", "UTC", 0, 0, 0, 1}, {"fork+restart", "UTC", 0, 0, 0, 2}, {"fork+restart6", "UTC", 6, 0, 0, 1},
 	}
 	nh := c.Scale(3, 40)
 	type job struct {
 		p   c01params
 		env []string
 	}
+	var mu sync.Mutex
 	runChild := func(p c01params, tz string) (*hx.Report, error) {
 		dir := filepath.Join(c.Out, fmt.Sprintf("child-%d-%s-%s", p.Seed, p.Mode, p.Label))
 		os.MkdirAll(dir, 0755)
@@ -263,6 +379,15 @@ func c01parent(c *hx.Ctx) error {
 		if err := json.Unmarshal(rb, &rep); err != nil {
 			return nil, err
 		}
+		mu.Lock()
+		if d, ok := rep.Coverage["distribution"].(map[string]interface{}); ok {
+			for k, v := range d {
+				if f, ok := v.(float64); ok {
+					c.HitN(p.Mode+":"+k, int(f))
+				}
+			}
+		}
+		mu.Unlock()
 		return &rep, nil
 	}
 	var only *struct {
@@ -295,7 +420,7 @@ func c01parent(c *hx.Ctx) error {
 		if only != nil {
 			seed, tzs = only.Seed, only.Tz
 		}
-		blocks := 110
+		blocks := 260
 		if tzs {
 			blocks = 70
 		}
@@ -327,7 +452,7 @@ func c01parent(c *hx.Ctx) error {
 			e := e
 			go func() {
 				p := base
-				p.Mode, p.Label, p.RestartEvery, p.ReorgEvery, p.SkewSec = "follow", e.label, e.restartEvery, e.reorgEvery, e.skew
+				p.Mode, p.Label, p.RestartEvery, p.ReorgEvery, p.SkewSec, p.Fork = "follow", e.label, e.restartEvery, e.reorgEvery, e.skew, e.fork
 				p.TraceFile = filepath.Join(c.Out, fmt.Sprintf("trace-%d-%s.txt", seed, e.label))
 				rp, err := runChild(p, e.tz)
 				tr, _ := os.ReadFile(p.TraceFile)
@@ -390,6 +515,7 @@ func init() {
 		}
 		defer os.RemoveAll("./testdata")
 		defer os.RemoveAll("./testdata2")
+		c01realCeremony()
 		if wrap.Replay.Mode == "gen" {
 			return c01gen(c, wrap.Replay)
 		}
